@@ -1,3 +1,102 @@
-(* C10, collector level: statements only (filled in as the proofs land). *)
-From Coq Require Import NArith Bool List.
-From C09 Require Import GcModel.
+(* C10, collector level (cited by checks/c10.py through checks/c09.py:collector_proof_stage):
+   statements only, each closed by `exact`, pinned by `Check`.  Hypothesis `dead_no_res`: no unreachable box
+   has a resurrecting finalizer (see Props_C09.collect_safe_with_resurrection_refuted for why it is needed). *)
+From Coq Require Import NArith Bool List Arith.
+From C09 Require Import GcModel Spec_C09 Collect_C09 Hist_C09 C10gc_C09 C10hist_C09 Sched_C09.
+Import ListNotations.
+
+(* a collection does not change which strong boxes are reachable *)
+Theorem collect_reach_preserved : forall s s' g,
+  Inv s -> poisoned s = false -> dead_no_res s -> collect s = (s', g) ->
+  forall n, Reach s' n <-> Reach s n.
+Proof. exact collect_reach_iff. Qed.
+Check collect_reach_preserved : forall s s' g,
+  Inv s -> poisoned s = false -> dead_no_res s -> collect s = (s', g) ->
+  forall n, Reach s' n <-> Reach s n.
+Print Assumptions collect_reach_preserved.
+
+(* the sub-heap reachable from the mutator's handles is identical after the collection: root lists and
+   allocation counters, payload handles / finalizer / kind of every reachable box, entry lists up to entries
+   whose ephemeron has lost its data, data of every reachable ephemeron whose key is reachable *)
+Theorem collect_preserves_reachable : forall s s' g,
+  Inv s -> poisoned s = false -> dead_no_res s -> collect s = (s', g) ->
+  ext_s s' = ext_s s /\ ext_e s' = ext_e s /\ next_s s' = next_s s /\ next_e s' = next_e s /\
+  (forall n b, Reach s n -> find_s n (strongs s) = Some b ->
+     exists b', find_s n (strongs s') = Some b' /\ s_kids b' = s_kids b /\ s_fin b' = s_fin b /\
+                s_map b' = s_map b /\
+                (forall e, In e (s_ephs b') <->
+                           In e (s_ephs b) /\ (s_ephs b' = s_ephs b \/ has_data (weaks s') e = true))) /\
+  (forall e x k v, ReachE s e -> find_e e (weaks s) = Some x -> e_data x = Some (k, v) -> Reach s k ->
+     exists x', find_e e (weaks s') = Some x' /\ e_data x' = Some (k, v)).
+Proof. exact C10gc_C09.collect_preserves_reachable. Qed.
+Check collect_preserves_reachable : forall s s' g,
+  Inv s -> poisoned s = false -> dead_no_res s -> collect s = (s', g) ->
+  ext_s s' = ext_s s /\ ext_e s' = ext_e s /\ next_s s' = next_s s /\ next_e s' = next_e s /\
+  (forall n b, Reach s n -> find_s n (strongs s) = Some b ->
+     exists b', find_s n (strongs s') = Some b' /\ s_kids b' = s_kids b /\ s_fin b' = s_fin b /\
+                s_map b' = s_map b /\
+                (forall e, In e (s_ephs b') <->
+                           In e (s_ephs b) /\ (s_ephs b' = s_ephs b \/ has_data (weaks s') e = true))) /\
+  (forall e x k v, ReachE s e -> find_e e (weaks s) = Some x -> e_data x = Some (k, v) -> Reach s k ->
+     exists x', find_e e (weaks s') = Some x' /\ e_data x' = Some (k, v)).
+Print Assumptions collect_preserves_reachable.
+
+(* the weak-map registry after a collection: exactly the entries whose WeakGc still upgrades *)
+Theorem collect_registry : forall s s' g,
+  Inv s -> poisoned s = false -> dead_no_res s -> collect s = (s', g) ->
+  forall w, In w (wmaps s') <-> In w (wmaps s) /\ has_data (weaks s') w = true.
+Proof. exact collect_wmaps. Qed.
+Check collect_registry : forall s s' g,
+  Inv s -> poisoned s = false -> dead_no_res s -> collect s = (s', g) ->
+  forall w, In w (wmaps s') <-> In w (wmaps s) /\ has_data (weaks s') w = true.
+Print Assumptions collect_registry.
+
+(* dropping every handle and collecting twice leaves nothing behind *)
+Theorem drop_all_then_collect_empties : forall s s1 g1 s2 g2,
+  Inv s -> poisoned s = false -> no_res s -> wm_unit s -> ext_s s = [] -> ext_e s = [] ->
+  collect s = (s1, g1) -> collect s1 = (s2, g2) ->
+  strongs s1 = [] /\ wmaps s1 = [] /\ strongs s2 = [] /\ weaks s2 = [] /\ wmaps s2 = [].
+Proof. exact C10gc_C09.drop_all_then_collect_empties. Qed.
+Check drop_all_then_collect_empties : forall s s1 g1 s2 g2,
+  Inv s -> poisoned s = false -> no_res s -> wm_unit s -> ext_s s = [] -> ext_e s = [] ->
+  collect s = (s1, g1) -> collect s1 = (s2, g2) ->
+  strongs s1 = [] /\ wmaps s1 = [] /\ strongs s2 = [] /\ weaks s2 = [] /\ wmaps s2 = [].
+Print Assumptions drop_all_then_collect_empties.
+
+(* the same after any history (all its hypotheses are invariants of histories) *)
+Theorem nothing_left_behind : forall ops s1 g1 s2 g2,
+  Forall op_no_res ops ->
+  ext_s (exec init ops) = [] -> ext_e (exec init ops) = [] ->
+  collect (exec init ops) = (s1, g1) -> collect s1 = (s2, g2) ->
+  strongs s1 = [] /\ wmaps s1 = [] /\ strongs s2 = [] /\ weaks s2 = [] /\ wmaps s2 = [].
+Proof. exact nothing_left_behind_lemma. Qed.
+Check nothing_left_behind : forall ops s1 g1 s2 g2,
+  Forall op_no_res ops ->
+  ext_s (exec init ops) = [] -> ext_e (exec init ops) = [] ->
+  collect (exec init ops) = (s1, g1) -> collect s1 = (s2, g2) ->
+  strongs s1 = [] /\ wmaps s1 = [] /\ strongs s2 = [] /\ weaks s2 = [] /\ wmaps s2 = [].
+Print Assumptions nothing_left_behind.
+
+(* schedule independence: inserting collections at arbitrary points of a history changes no observation of a
+   mutator that makes no weak observation (`plain` excludes Collect itself, resurrecting finalizers, and the two
+   weak observations Upgrade / EphValue: without collections a weak pointer to garbage still upgrades) *)
+Theorem schedule_independent : forall ops1 ops2,
+  Forall plain ops1 -> interleave ops1 ops2 ->
+  filter not_gc (snd (run init ops2)) = snd (run init ops1).
+Proof. exact Sched_C09.schedule_independent. Qed.
+Check schedule_independent : forall ops1 ops2,
+  Forall plain ops1 -> interleave ops1 ops2 ->
+  filter not_gc (snd (run init ops2)) = snd (run init ops1).
+Print Assumptions schedule_independent.
+
+(* the hypotheses are satisfiable and not vacuous: a history with a cycle, an ephemeron and a weak map, with two
+   collections inserted *)
+Example schedule_example :
+  let ops1 := [Alloc 0; Alloc 0; Link 0%N 1%N; Link 1%N 0%N; MkEph 0%N 1%N; WmNew; WmInsert 2%N 0%N 1%N; Drop 1%N; Drop 0%N;
+               WmGet 2%N 0%N; Alloc 0; Read 3%N] in
+  let ops2 := [Alloc 0; Alloc 0; Link 0%N 1%N; Collect; Link 1%N 0%N; MkEph 0%N 1%N; WmNew; WmInsert 2%N 0%N 1%N; Drop 1%N; Drop 0%N;
+               Collect; WmGet 2%N 0%N; Alloc 0; Read 3%N] in
+  Forall plain ops1 /\ interleave ops1 ops2 /\ filter not_gc (snd (run init ops2)) = snd (run init ops1).
+Proof.
+  cbv zeta. split; [repeat constructor; discriminate|]. split; [repeat constructor|]. vm_compute. reflexivity.
+Qed.
